@@ -36,6 +36,26 @@ CHECKS = {
          "Histories of stake/unstake/delegate/undelegate/redelegate/vote/lock updates from three vaults/vault deactivation/allowed-denom changes with amounts exactly at and one below the lock and powers above 2^63; every power-reducing operation must succeed exactly when the model power stays at or above the largest lock of an active vault, and a rejected attempt must change nothing.",
          "Delegation power follows the code's reading (all delegations, rate 1, no slashing, nothing matures within a history). Redelegations whose intermediate state dips below the lock are left open. Found and fixed: duplicate allowed denoms (see known_findings.json).",
          "DESIGN.md 2/C16"),
+ "C04": ("exploration",
+         "runtime monitoring: real DKG rounds by signed txs with byzantine deviations played by the harness; honest round 3 is the shipped cylinder code (hook); oracle = independent big.Int/curve algebra over the polynomials the harness dealt + expected malicious flags / group status",
+         "Per case one DKG (n 1..7, to 20 thorough; all t) with shuffled submission orders across blocks and one deviation family (corrupted share in 3 modes by 1-2 dealers, false complaint with valid proof, malformed complaints, silence per round) plus per-message hostile variants; ACTIVE requires group key = sum of A0 commitments, member keys = image of dealt share sums, a random t-subset interpolating to the group key, and nobody flagged; a cheated honest recipient must produce a successful complaint through the real client code, the dealer flagged, the group FALLEN; false/malformed complaints flag only the complainant.",
+         "Secrecy ('fewer than t cannot sign') is not observable. DKG key material comes from crypto/rand inside pkg/tss (control flow is still seed-determined).",
+         "DESIGN.md 2/C04"),
+ "C06": ("exploration",
+         "runtime monitoring: exact-rational reference of the README price procedure vs. the real MedianValidatorPriceInfos/CalculatePrice (pure vectors) and vs. the Price store + update events of histories executed through ABCI (with twin replicas)",
+         "Pure: 270k vectors per quick run with power distributions (equal, >50%, >97%, near 2^63, co-prime), ties in price/time/power, all status mixes and boundary quorums. Chain: validators submit prices by tx over varying block times/intervals, go stale, get deactivated or jailed; after each end-block every current feed's stored price/status must equal the reference applied to bonded, oracle-active validators with fresh prices, lie within [min,max] of fresh AVAILABLE inputs, and twin replicas must agree on the app hash.",
+         "Current feeds and intervals are read from the chain (C07 decides them). Tie orders the README leaves open are accepted in any order. Found and fixed: zero reporting power with a quorum that truncates to 0 halted the chain.",
+         "DESIGN.md 2/C06"),
+ "C07": ("exploration",
+         "runtime monitoring: model of delegations/stakes/standing votes with big.Int sums vs. accepted MsgVote txs, restake lock, SignalTotalPower store, by-power index (raw KV walks) and the recomputed current-feed list/intervals",
+         "Histories of votes, re-votes, empty and invalid votes, int64-limit powers whose sum wraps, delegate/undelegate/redelegate/stake/unstake by 3-7 voters under drawn parameters; after every block lock = vote sum <= power, totals = sum of standing votes, index in bijection with totals, and at update blocks the list is exactly the highest-powered eligible signals with the documented interval (tie order at the cut not asserted).",
+         "Exchange rate 1 (no slashing). Found and fixed: vote power sum wrapped int64.",
+         "DESIGN.md 2/C07"),
+ "C11": ("exploration",
+         "runtime monitoring: independent parser/decoder (keccak, strict ABI decoding, protowire, 640-bit tick table) applied to every signed message produced by the real originator encoders, content handlers and on-chain signing requests; injectivity map over the whole run; exhaustive tick-boundary sweep",
+         "Originators (field-shifting families, delimiter-like and empty strings), all 9 route/kind pairs through the real content router on live state, really signed MsgRequestSignature txs and tunnel packets against a genesis group; every message must parse into hash(originator)|time|id|tag|payload and decode back to the on-chain values; internal content kinds must be refused to users; PriceToTick compared with an own table walk on random prices and on every boundary of all 524287 ticks.",
+         "The signing group in this check comes from genesis (no DKG); messages of DKG-created groups are covered by C03/C18 worlds. Found and fixed: signal ids with a leading zero byte aliased another id in the bytes32 encoding.",
+         "DESIGN.md 2/C11"),
 }
 NA_REASON = "check not built yet (work in progress; see DESIGN.md section 2)"
 
